@@ -39,13 +39,14 @@ func init() {
 			checkC17Help(c, budget(c.Tier, 400, 40000))
 		}}
 	props["C19"] = propRun{
-		rule: "(a) tags rendered from random (key, value) lists with strconv.Quote and random blanks, one third mutated at a random byte position, through the scanner; (b) generated declarations (15% deliberately malformed / colliding / over-long short names / defaults on flags) built on the real library and in the model, full dump of the public model compared, attributes checked against reflect.StructTag; (c) duplicates stage: one declaration with two options of different groups sharing a short or (namespaced) long name - top level / nested / sibling groups / two levels deep / created by a namespace - must be refused with ErrDuplicatedFlag, controls accepted; distinct per tag / declaration",
+		rule: "(a) tags rendered from random (key, value) lists with strconv.Quote and random blanks, one third mutated at a random byte position, through the scanner; (b) generated declarations (15% deliberately malformed / colliding / over-long short names / defaults on flags) built on the real library and in the model, full dump of the public model compared, attributes checked against reflect.StructTag; (c) duplicates stage: one declaration with two options of different groups sharing a short or (namespaced) long name - top level / nested / sibling groups / two levels deep / created by a namespace - must be refused with ErrDuplicatedFlag, controls accepted; (d) malformed stage: a well-formed declaration in which the tag of one field (option at the top / in a group / in a command, group field, command field, positional-args field, positional argument) is broken in a definite way must be refused with ErrTag; distinct per tag / declaration",
 		run: func(c *Ctx) {
 			c.N = budget(c.Tier, 3000, 300000)
 			checkC19Scan(c)
 			checkStdlibModel(c, budget(c.Tier, 400, 20000))
 			checkC19Model(c, budget(c.Tier, 400, 40000))
 			checkC19Duplicates(c, budget(c.Tier, 300, 6000))
+			checkC19Malformed(c, budget(c.Tier, 300, 6000))
 		}}
 	props["C02"] = propRun{
 		rule: "(a) option tokens in all spellings over ASCII / multi-byte / invalid names and arbitrary values through the splitting functions; (b) metamorphic groups: one generated declaration and surrounding argument vector, one occurrence of one option rendered as -xV, -x=V, -x V, --name=V, --name V and quoted forms; (c) cluster groups -abc [V] / -a -b -c [V] / -ab -c [V] with non-ASCII flags; (d) random whole-parser cases with 40% non-ASCII names; distinct per token / group",
@@ -55,7 +56,7 @@ func init() {
 			p := defaultProfile
 			p.BadDecl = 0
 			p.Utf = 0.3
-			checkC02Spellings(c, budget(c.Tier, 200, 15000), p)
+			checkC02Spellings(c, budget(c.Tier, 500, 20000), p)
 			checkC02Clusters(c, budget(c.Tier, 200, 15000), p)
 			pp := defaultProfile
 			pp.Utf = 0.4
@@ -132,6 +133,13 @@ func init() {
 		p.ValueBad = 0.3
 		p.OptsAlways = 0
 	}, oracleNoPanic, oracleContained)
+	{
+		base := props["C04"]
+		props["C04"] = propRun{rule: base.rule + "; typed stage: every documented cause of a rejection (unknown option long / short / in a cluster, missing or option-looking argument, argument for a flag, unconvertible / out-of-range / badly quoted value from the command line, the environment or a default tag, non-choice, required option, missing and unknown command, help, refusing callback) produced on purpose, with and without PrintErrors: the documented Type, and the text written exactly once to the right stream or not at all", run: func(c *Ctx) {
+			base.run(c)
+			checkC04Typed(c, budget(c.Tier, 800, 30000))
+		}}
+	}
 	parseProp("C06", caseRule+"emphasis: required options at every level and positional count constraints", 2500, 100000, func(p *Profile) {
 		p.Required = 0.5
 		p.PosArgs = 0.6
